@@ -174,7 +174,7 @@ def judge_case(ref, case, r, tree, lists, twin_tree):
                 problems.append(("wrong-directory:%s" % k, "%s (kind %s) was written into %s, designated: %s" % (
                     f, k, sub, designated(dirs, k))))
     # completeness when nothing is overridden per declaration
-    if not case["overrides"] and not case.get("switch_on"):
+    if not case["overrides"] and not case.get("switch_on") and not case.get("ns_off"):
         for d, names in allowed.items():
             for f in sorted(names):
                 if f not in tree.get(d, {}):
@@ -245,7 +245,7 @@ def fortran_procedures(files):
     return names
 
 
-def check_presence(case, ref, tree, model_funcs, language="c++"):
+def check_presence(case, ref, tree, model_funcs, language="c++", ns_members=None):
     problems = []
     flags, dirs = case["flags"], case["dirs"]
     lang_files = {}
@@ -256,8 +256,13 @@ def check_presence(case, ref, tree, model_funcs, language="c++"):
     lang_files["lua"] = {f: b for f, b in tree.get(eff_dir(dirs, "lua"), {}).items() if kind_of(ref, f) == "lua"}
     switch_on = case.get("switch_on") or {}
     for fname, admitted in model_funcs:
-        off = case["overrides"].get(fname, [])
+        off = list(case["overrides"].get(fname, []))
         won = switch_on.get(fname, [])
+        ns_level = set()
+        for nsname, langs in (case.get("ns_off") or {}).items():
+            if fname in (ns_members or {}).get(nsname, ()):
+                off += [l for l in langs if l not in off and l not in won]
+                ns_level.update(langs)
         # effective per-declaration state: library level, switched off or switched on for this declaration
         eon = {l: (flags[l] and l not in off) or (not flags[l] and l in won) for l in ("c", "fortran", "python", "lua")}
         for lang in ("c", "fortran", "python", "lua"):
@@ -272,7 +277,7 @@ def check_presence(case, ref, tree, model_funcs, language="c++"):
                                      "%s is wrapped for %s (%s) but does not occur in the %s output" % (fname, lang, how, lang)))
             elif not lang_files[lang]:
                 continue
-            elif lang == "fortran" and eon["c"]:
+            elif lang == "fortran" and eon["c"] and "fortran" not in ns_level:
                 # the C wrapper is on: its bind(C) interface legitimately remains in the
                 # module; what must be gone is the Fortran wrapper procedure itself
                 if fname.lower() in fortran_procedures(lang_files[lang]):
@@ -287,6 +292,7 @@ def check_presence(case, ref, tree, model_funcs, language="c++"):
 def _job(job):
     name, text, argv, cases, model_funcs = job[:5]
     corpus_entry = bool(job[5]) if len(job) > 5 else False
+    ns_members = job[6] if len(job) > 6 else {}
     doc = meta.load(text)
     out = dict(name=name, runs=0, fails=[], nontrivial=[], samples=[])
     work = tempfile.mkdtemp(prefix="vf15_", dir=core.scratch_root())
@@ -314,6 +320,11 @@ def _job(job):
                     if node.get("decl") and _decl_name(node["decl"]) == fname:
                         d2 = meta.with_options(d2, {"wrap_" + l: False for l in off}, path)
                         break
+            for nsname, off in (case.get("ns_off") or {}).items():
+                for path, node, _ in meta.walk_decls(d2):
+                    if node.get("decl", "").split() == ["namespace", nsname]:
+                        d2 = meta.with_options(d2, {"wrap_" + l: False for l in off}, path)
+                        break
             for fname, on in (case.get("switch_on") or {}).items():
                 for path, node, _ in meta.walk_decls(d2):
                     if node.get("decl") and _decl_name(node["decl"]) == fname:
@@ -321,7 +332,7 @@ def _job(job):
                         break
             r, tree, lists = run_case(work, "case%d" % i, d2, name, argv, case["flags"], case["dirs"])
             out["runs"] += 1
-            cdesc = dict(lib=name, yaml=text, argv=argv, case=case, corpus_entry=corpus_entry)
+            cdesc = dict(lib=name, yaml=text, argv=argv, case=case, corpus_entry=corpus_entry, ns_members=ns_members)
             if r.status != "ok":
                 out["fails"].append(("case-failed", cdesc, "Shroud stops: " + r.describe()))
                 continue
@@ -336,7 +347,7 @@ def _job(job):
                     twin_tree = None
             problems = judge_case(ref, case, r, tree, lists, twin_tree)
             if model_funcs:
-                problems += check_presence(case, ref, tree, model_funcs, doc.get("language", "c++"))
+                problems += check_presence(case, ref, tree, model_funcs, doc.get("language", "c++"), ns_members)
             nt = (sum(case["flags"].values()) not in (0, 4)) or len(set(v for v in case["dirs"].values() if v)) > 1
             if nt:
                 out["nontrivial"].append((name, repr(sorted(case["flags"].items())), repr(sorted(case["dirs"].items())),
@@ -358,7 +369,7 @@ def _decl_name(decl):
 
 
 @st.composite
-def case_strategy(draw, func_names, ovl_names=None, deep_names=None):
+def case_strategy(draw, func_names, ovl_names=None, deep_names=None, ns_names=None):
     c = draw(st.booleans())
     flags = dict(c=c, fortran=c and draw(st.booleans()), python=draw(st.booleans()), lua=draw(st.booleans()))
     pool = ["d0", "d1", "d2", "d3", "d4"]
@@ -382,7 +393,11 @@ def case_strategy(draw, func_names, ovl_names=None, deep_names=None):
         for fn in draw(st.lists(st.sampled_from(pool2 or func_names), min_size=1, max_size=2, unique=True)):
             if fn not in overrides:
                 switch_on[fn] = draw(st.sampled_from(offl))
-    return dict(flags=flags, dirs=dirs, overrides=overrides, switch_on=switch_on)
+    # a whole namespace switched off for a language (the option is inherited by everything inside)
+    ns_off = {}
+    if ns_names and draw(st.integers(0, 2)) == 0:
+        ns_off[draw(st.sampled_from(sorted(ns_names)))] = draw(st.sampled_from([["fortran"], ["fortran"], ["python"], ["lua"], ["c", "fortran"]]))
+    return dict(flags=flags, dirs=dirs, overrides=overrides, switch_on=switch_on, ns_off=ns_off)
 
 
 def model_function_names(model):
@@ -420,6 +435,22 @@ def deep_function_names(model):
     return res
 
 
+def namespace_members(model):
+    """{namespace name: [names of free functions anywhere below it]} for every namespace of the model."""
+    res = {}
+
+    def rec(decls, above):
+        for n in decls:
+            if n["kind"] == "func":
+                for a in above:
+                    res[a].append(n["name"])
+            elif n["kind"] == "namespace":
+                res.setdefault(n["name"], [])
+                rec(n["decls"], above + [n["name"]])
+    rec(model["decls"], [])
+    return res
+
+
 def overload_names(model):
     """C++ names shared by several free functions (overload sets)."""
     seen = {}
@@ -448,8 +479,8 @@ def run(ctx):
     models = smallgen.sample_models(ctx.seed, nlib, with_python=True, with_lua=True)
     for m in models:
         funcs = model_function_names(m)
-        cases = smallgen.sample(case_strategy([f for f, _ in funcs], overload_names(m), deep_function_names(m)), ctx.seed + len(jobs), ncase)
-        jobs.append((m["library"], smallgen.to_yaml(m), [], cases, funcs))
+        cases = smallgen.sample(case_strategy([f for f, _ in funcs], overload_names(m), deep_function_names(m), namespace_members(m)), ctx.seed + len(jobs), ncase)
+        jobs.append((m["library"], smallgen.to_yaml(m), [], cases, funcs, False, namespace_members(m)))
     import random  # deterministic corpus selection from VERIF_SEED
     rnd = random.Random(ctx.seed)
     ents = [e for e in corpus.entries() if e.name not in ("none",) and not _own_overrides(e.text())]
@@ -496,6 +527,6 @@ def replay(ctx, rec):
     c = rec["case"]
     cases = [c["case"]] if c.get("case") else []
     funcs = []
-    out = _job((c["lib"], c["yaml"], c["argv"], cases, funcs, c.get("corpus_entry", False)))
+    out = _job((c["lib"], c["yaml"], c["argv"], cases, funcs, c.get("corpus_entry", False), c.get("ns_members") or {}))
     for key, case, note in out["fails"]:
         ctx.failure(key, case, observed=note, note=note)
